@@ -1099,8 +1099,13 @@ class StrategyBase(Node):
         # Adjust prices for bid/offer paid if needed
         if self._bidoffer_set:
             # bid/offer paid is recorded in currency (multiplier included); prices are per unit
-            bidoffer = pd.DataFrame({x.name: x.bidoffers_paid / x.multiplier for x in self.securities}).unstack()
-            prc += bidoffer / trades
+            bidoffer = pd.DataFrame()
+            for x in self.securities:
+                if x.name in bidoffer.columns:
+                    bidoffer[x.name] += x.bidoffers_paid / x.multiplier
+                else:
+                    bidoffer[x.name] = x.bidoffers_paid / x.multiplier
+            prc += bidoffer.unstack() / trades
 
         res = pd.DataFrame({"price": prc, "quantity": trades}).dropna(subset=["quantity"])
 
